@@ -223,7 +223,13 @@ func (h *handler) serve(clientCtx context.Context) error {
 			for {
 				select {
 				case args := <-h.unaryRpcChan:
-					h.writeChan <- h.processUnaryRpc(clientCtx, args.info, args.md, args.rpc)
+					reply := h.processUnaryRpc(clientCtx, args.info, args.md, args.rpc)
+					select {
+					case h.writeChan <- reply:
+					case <-h.ctx.Done():
+						// the writer is gone with the connection
+						return
+					}
 				case <-unaryRpcCtx.Done():
 					return
 				}
